@@ -60,13 +60,13 @@ impl Depth {
     /// segment is empty, so that depth counts the components of the absolute path): the harness
     /// adds the component count of the world root's absolute path to every non-zero bound.
     pub fn shifted(&self, shift: usize) -> Depth {
-        let s = |n: usize| if n == 0 { 0 } else { n + shift };
+        let s = |n: usize| if n == 0 { 0 } else { n.saturating_add(shift) };
         match *self {
             Depth::Unbounded => Depth::Unbounded,
-            Depth::Max(n) => Depth::Max(n + shift),
+            Depth::Max(n) => Depth::Max(n.saturating_add(shift)),
             Depth::Min(n) => Depth::Min(s(n)),
             Depth::MinMax(p, q) => Depth::MinMax(s(p), s(q)),
-            Depth::Bounded(a, b) => Depth::Bounded(a.map(s), b.map(|n| n + shift)),
+            Depth::Bounded(a, b) => Depth::Bounded(a.map(s), b.map(|n| n.saturating_add(shift))),
         }
     }
 
